@@ -232,6 +232,14 @@ partial def handle (e : Env) (w : Nat) (op : String) (args : List String) (got :
     else if o == "on_curve" then cls ("r=" ++ (if onCurve c (p.1 % c.p, p.2 % c.p) then "1" else "0")) tags
     else if o == "is_infty" then cls ("r=" ++ (if (p.1 % c.p, p.2 % c.p) == neutral c then "1" else "0")) tags
     else none
+  | "ed_nsim", _ :: pts => do
+    -- ed_norm_sim: every entry normalised (affine coordinates of the point each operand denotes, z = 1), whatever the representation —
+    -- the neutral element in projective form (0 : Z : Z) included
+    let rs ← pts.mapM (parseRep c.p)
+    let aff := rs.map fun (r : EPt Nat) =>
+      let zi := Relic.Model.Formula.invEuclid c.p r.z
+      natToHex (r.x * zi % c.p) ++ "," ++ natToHex (r.y * zi % c.p)
+    some { model := got, spec := [String.intercalate ";" aff], tags := ["norm_sim", "norm_sim.n" ++ toString pts.length] }
   | "edm", [v, _, p, k] => do
     let p0 ← parsePoint p
     let k ← parseHexInt k
